@@ -826,6 +826,9 @@ namespace {
     }
 }
 
+// bluetoe does not allocate; a small quarantine keeps the page fault load of 16 parallel workers low
+extern "C" const char* __asan_default_options() { return "quarantine_size_mb=8"; }
+
 int main( int argc, char** argv )
 {
     verif::Harness< Case > h{ gen_case, to_text, from_text, run };
